@@ -2,6 +2,7 @@ package sim
 
 import (
 	"fmt"
+	"os"
 	"sort"
 	"strings"
 	"time"
@@ -232,6 +233,9 @@ func (h *History) Render(max int) []string {
 			s = fmt.Sprintf("VIOLATION %s %s", e.S, e.S2)
 		case EvCheckpoint:
 			s = "checkpoint " + e.S
+			if os.Getenv("VERIF_DEBUG_STACKS") != "" && e.S2 != "" {
+				s += "\n" + e.S2
+			}
 		default:
 			s = fmt.Sprintf("event kind=%d", e.Kind)
 		}
